@@ -5,8 +5,10 @@ import (
 	"bytes"
 	"encoding/json"
 	"fmt"
+	"hash/fnv"
 	"os"
 	"strconv"
+	"strings"
 	"sync"
 	"testing"
 	"testing/iotest"
@@ -20,6 +22,7 @@ import (
 	"verif/internal/canon"
 	"verif/internal/cmpx"
 	"verif/internal/gx"
+	"verif/internal/vet"
 	"verif/internal/vrt"
 	"verif/internal/wx"
 )
@@ -69,6 +72,22 @@ var entries = []entry{
 		defer reusedMu.Unlock()
 		reused.Options = o.Options()
 		return []byte(reused.SEN(d)), nil
+	}},
+	// writers with a history of streaming, failed and in-memory calls (internal/vet)
+	{"sen.Writer(veteran).SEN", false, func(d any, o wx.Opt) ([]byte, error) {
+		w := vet.WarmSenWriter(&sen.Writer{Options: o.Options()})
+		return []byte(w.SEN(d)), nil
+	}},
+	{"sen.Writer(veteran).Write", false, func(d any, o wx.Opt) ([]byte, error) {
+		w := vet.WarmSenWriter(&sen.Writer{Options: o.Options()})
+		r := &wx.Rec{}
+		err := w.Write(r, d)
+		return r.Buf, err
+	}},
+	{"pretty.Writer(veteran).Encode", true, func(d any, o wx.Opt) ([]byte, error) {
+		oo := o.Options()
+		w := vet.WarmPrettyWriter(&pretty.Writer{Options: oo, Width: o.Width, MaxDepth: o.MaxDepth, Align: o.Align, SEN: true})
+		return w.Encode(d), nil
 	}},
 	{"pretty.SEN", true, func(d any, o wx.Opt) ([]byte, error) { return []byte(pretty.SEN(d, prettyArgs(o)...)), nil }},
 	{"pretty.WriteSEN", true, func(d any, o wx.Opt) ([]byte, error) {
@@ -180,7 +199,18 @@ func Run(cs Case, c *vrt.Ctx) {
 	}
 	c.Sample(map[string]any{"tree": oj.JSON(want, &ojg.Options{Sort: true}), "opt": o})
 	san, k1, k2 := sanitizeKnown(tree)
+	// the veteran writers cost a history of calls each: every fifth case (by content)
+	h := fnv.New32a()
+	_, _ = h.Write([]byte(oj.JSON(want, &ojg.Options{Sort: true})))
+	_, _ = h.Write([]byte(fmt.Sprint(o)))
+	veterans := h.Sum32()%5 == 0
+	if veterans {
+		c.Class("veteran-instances")
+	}
 	for _, e := range entries {
+		if !veterans && strings.Contains(e.name, "(veteran)") {
+			continue
+		}
 		kind, detail := checkEntry(e, tree, o)
 		if kind == "" {
 			continue
